@@ -267,7 +267,7 @@ class Gen:
                     e, v = rng.choice(self.strs)
                 spec = None
                 if not isinstance(v, str) and rng.random() < 0.75:
-                    w = rng.randint(0, 22)
+                    w = rng.randint(0, 22) if rng.random() > 0.02 else rng.choice([255, 256, 257, 300, 1024])
                     spec = rng.choice(["x", "X", "b", "d", "%d" % w, "%dd" % w, "0%d" % w, "0%dd" % w, "%dx" % w,
                                        "0%dx" % w, "0%dX" % w, "0%db" % w, "%db" % w, "%dX" % w, ""])
                 dollar = "$" if rng.random() < 0.12 else ""
@@ -324,6 +324,8 @@ class Gen:
             return "%%", None, "%"
         flags = rng.choice(["", "", "", "0", "0", "-", "-0", "0-", "00", "--"])
         width = rng.choice([0, 0] + list(range(0, 23)))
+        if rng.random() < 0.02:      # now and then a rendering beyond the 256-byte first buffer of the snprintf helper
+            width = rng.choice([255, 256, 257, 300, 1024])
         wtxt = str(width) if (width or rng.random() < 0.2) else ""
         if wtxt == "0" and flags == "":
             wtxt = ""
@@ -570,6 +572,103 @@ def grid_programs(per_prog):
         out.append({"k": k, "decls": [], "env": g.env, "stmts": stmts, "ending": "normal", "main": "void",
                     "avoided": g.avoided})
     return out, len(pairs)
+
+
+# ------------------------------------------------------------------ size boundaries
+# Thresholds in the code: render_formatted_string's snprintf helper has a 256-byte first buffer and a retry with
+# written+1 bytes (output_manager.cpp:format_with_snprintf); stdout is a 4096-byte stdio buffer when piped
+# (native_stdio_output.cpp: putchar/fputs, flushed in main.cpp); write_number has a 32-byte buffer (an int64 needs 21);
+# format_interpolated_value uses a stringstream and an `int width` (no fixed buffer); write_formatted's 4096-byte
+# buffer is not on any print path.  Everything is exercised at L-1, L, L+1 (and L+2 for 256).
+BOUNDS_QUICK = [254, 255, 256, 257, 258, 511, 512, 513, 1023, 1024, 1025, 4095, 4096, 4097, 8191, 8192, 8193]
+BOUNDS_THOROUGH = BOUNDS_QUICK + [16383, 16384, 16385, 65535, 65536, 65537]
+
+
+def payload(kind, L):
+    """exactly L bytes (latin-1 str): ASCII, or UTF-8 whose last multi-byte character ends at byte L"""
+    if kind == "ascii":
+        return "".join(chr(97 + i % 26) for i in range(L))
+    ch = {"utf8-2": "é", "utf8-3": "日", "utf8-4": "𝄞"}[kind].encode("utf-8").decode("latin-1")
+    n = L // len(ch)
+    return "x" * (L - n * len(ch)) + ch * n
+
+
+def boundary_programs(seed, tier):
+    bounds = BOUNDS_QUICK if tier == "quick" else BOUNDS_THOROUGH
+    rng = rng_for(seed, "c16-bounds", tier)
+    stmts, decls, env = [], [], []
+    svars = {}
+
+    def strvar(kind, L):
+        key = (kind, L)
+        if key not in svars:
+            name = "b%d" % len(svars)
+            svars[key] = name
+            decls.append('string %s = "%s";' % (name, payload(kind, L)))
+            env.append([name, "S", payload(kind, L)])
+        return {"k": "S", "v": payload(kind, L), "src": svars[key]}
+
+    def val(neg):
+        v = rng.choice([7, 255, 65536, 2 ** 31, 2 ** 40 + 3, I64MAX, rng.randint(1, I64MAX)])
+        return -v if neg else v
+
+    seven = {"k": "I", "v": 7, "src": "7"}
+    for W in bounds:
+        # A. integer directives whose rendering is W bytes
+        for conv in ["d", "lld", "u", "x", "X", "o"]:
+            for flags in ["", "0", "-"]:
+                for neg in (False, True):
+                    v = val(neg)
+                    stmts.append({"nl": 1, "kind": "bound-printf",
+                                  "args": [{"k": "Q", "text": "[%" + flags + str(W) + conv + "|%d]"}, {"k": "I", "v": v, "src": lit(v)}, seven],
+                                  "want": "[" + c_int_directive(conv, flags, W, v) + "|7]\n"})
+        # B. %s with a payload of W bytes (no width, width W+2 either side), literal and variable
+        for i, kind in enumerate(["ascii", "utf8-2", "utf8-3", "utf8-4"]):
+            for j, (flags, w) in enumerate([("", 0), ("-", W + 2), ("", W + 2), ("", 3)]):
+                pl = payload(kind, W)
+                a = {"k": "Q", "text": pl} if (i + j) % 2 else strvar(kind, W)
+                stmts.append({"nl": 1, "kind": "bound-s",
+                              "args": [{"k": "Q", "text": "<%" + flags + (str(w) if w else "") + "s|%d>"}, a, seven],
+                              "want": "<" + c_str_directive(flags, w, pl) + "|7>\n"})
+        # a short payload padded to W by the width
+        for flags in ["", "-"]:
+            stmts.append({"nl": 1, "kind": "bound-s",
+                          "args": [{"k": "Q", "text": "<%" + flags + str(W) + "s|%" + flags + str(W) + "c|%d>"}, {"k": "Q", "text": "é".encode("utf-8").decode("latin-1") + "q"}, {"k": "I", "v": 65, "src": "65"}, seven],
+                          "want": "<" + c_str_directive(flags, W, "é".encode("utf-8").decode("latin-1") + "q") + "|" + c_str_directive(flags, W, "A") + "|7>\n"})
+        # C. interpolation widths
+        for sp in ["%d", "0%d", "%dd", "0%dd", "%dx", "0%dX", "0%db"]:
+            for neg in (False, True):
+                v = val(neg)
+                spec = sp % W
+                e = lit(v)
+                if [e, "I", v] not in env:
+                    env.append([e, "I", v])
+                stmts.append({"nl": 1, "kind": "bound-interp", "args": [{"k": "Q", "text": "<{" + e + ":" + spec + "}>"}],
+                              "want": "<" + spec_interp_value(v, spec) + ">\n"})
+        # D. plain print paths with W-byte strings
+        kind = ["ascii", "utf8-2", "utf8-3", "utf8-4"][W % 4]
+        pl = payload(kind, W)
+        stmts.append({"nl": 1, "kind": "bound-plain", "args": [{"k": "Q", "text": pl}], "want": pl + "\n"})
+        stmts.append({"nl": 0, "kind": "bound-plain", "args": [strvar(kind, W), {"k": "Q", "text": pl}, seven], "want": pl + " " + pl + " 7"})
+        stmts.append({"nl": 1, "kind": "bound-plain", "args": [{"k": "Q", "text": pl[:W // 2] + "{7}" + pl[W // 2:]}],
+                      "want": pl[:W // 2] + "7" + pl[W // 2:] + "\n"})
+        if ["7", "I", 7] not in env:
+            env.append(["7", "I", 7])
+        # E. a W-byte format literal, extra arguments of W bytes, pre-arguments of W bytes
+        stmts.append({"nl": 1, "kind": "bound-format", "args": [{"k": "Q", "text": pl + "%d"}, seven], "want": pl + "7\n"})
+        stmts.append({"nl": 1, "kind": "bound-format", "args": [{"k": "Q", "text": "%d"}, seven, strvar(kind, W), seven], "want": None})
+        stmts.append({"nl": 1, "kind": "bound-format", "args": [strvar(kind, W), {"k": "Q", "text": "%5d|%s"}, seven, {"k": "Q", "text": pl}],
+                      "want": pl + "     7|" + pl + "\n"})
+    progs = []
+    per = 40
+    for k in range(0, len(stmts), per):
+        chunk = stmts[k:k + per]
+        p = {"k": k, "decls": decls, "env": env, "stmts": list(chunk), "ending": "normal", "main": "void", "avoided": {}}
+        if (k // per) % 3 == 2:      # every third program ends in an error after all the long lines
+            p["stmts"].append({"fail": FAILS[(k // per) % len(FAILS)]})
+            p["ending"] = "error"
+        progs.append(p)
+    return progs
 
 
 # ------------------------------------------------------------------ rendering a description
@@ -883,6 +982,8 @@ def _run(rep, seed, tier, runner):
             p["ending"] = "error"
         progs.append(p); origin.append("big-then-error")
 
+    for p in boundary_programs(seed, tier):
+        progs.append(p); origin.append("size-boundaries")
     n_pairs = 0
     if tier == "thorough":
         gp, n_pairs = grid_programs(300)
@@ -934,6 +1035,10 @@ def _run(rep, seed, tier, runner):
         "grid": "every (converter in d lld i u x X o) x (flags '', 0, -, -0, 00) x width 0..20 printf shape and every interpolation spec "
                 "(N Nd 0N 0Nd Nx 0Nx NX 0NX Nb 0Nb) x width 0..20 is visited in rotation with boundary values (%d shapes, %d values: "
                 "+-2^k+{-2..2}, type limits +-1, 10^k+-1)" % (len(GRID), len(POOL)),
+        "size_boundaries": "rendered widths / string lengths %s around the 256-byte snprintf buffer + retry of render_formatted_string and the "
+                           "4096-byte stdio buffer, through d lld u x X o (flags '' 0 -, both signs), %%s/%%c (ASCII and 2/3/4-byte UTF-8 payloads "
+                           "ending at the boundary), {n:W} {n:0W} {n:Wx} {n:0WX} {n:0Wb}, plain/multi-argument println, long format literals"
+                           % (BOUNDS_QUICK if tier == "quick" else BOUNDS_THOROUGH),
         "input_distribution": {"programs_by_origin": hist, "statements_by_kind": kinds, "program_endings": endings},
         "avoided_known_findings": avoided,
         "samples": [{"statement": stmt_src(sample_p["stmts"][sample_i]).encode("latin-1").decode("utf-8", "replace"),
